@@ -35,11 +35,13 @@ SmallD   == {-9, -8, -7, -5, -4, -3, -1, 0, 1, 2, 3, 4, 6, 7, 9}      \* bounds 
 LookupDL == {-5, 4}
 LookupDC == {-4, 3}
 RealDL2  == {-17, 16}
-RealDC2  == {-33, 32}
+RealDC2  == {32}
 RealDL   == {-1000, -33, -32, -31, -17, -16, -15, -1, 0, 1, 14, 15, 16, 29, 30, 31, 1000}    \* bounds -16 / 15
 RealDC   == {-1000, -65, -64, -63, -33, -32, -31, -1, 0, 1, 30, 31, 32, 61, 62, 63, 1000}    \* bounds -32 / 31
-WideDL   == {-100000, -17, 0, 16, 100000}
-WideDC   == {-10000, -33, 0, 32, 10000}
+QuickDL  == {-33, -32, -17, -16, 0, 15, 16, 31, 32, 1000}
+QuickDC  == {-65, -64, -33, -32, 0, 31, 32, 63, 64, 1000}
+WideDL   == {-100000, 0, 100000}
+WideDC   == {-10000, 0, 10000}
 WideDL2  == {-17, 100000}
 WideDC2  == {-10000}
 
@@ -58,9 +60,13 @@ RoundTrip == Decode(St, Encode(St, rows)) = rows
 
 \* the words of the newest row (earlier rows were checked in earlier states)
 LastWords == IF rows = <<>> THEN <<>> ELSE EncRow(LastFrom, prev)
-Sum(ws, f(_)) == LET RECURSIVE S(_) S(i) == IF i = 0 THEN 0 ELSE f(ws[i]) + S(i - 1) IN S(Len(ws))
-WordsFit == \A i \in 1..Len(LastWords) :
-              LET w == LastWords[i] IN WordOK(w) /\ Pack(w) \in 0..(WordLim - 1) /\ Unpack(Pack(w)) = w
+Sum(ws, f(_)) == LET RECURSIVE S(_, _)      \* balanced: logarithmic evaluation depth
+                     S(lo, hi) == IF lo > hi THEN 0 ELSE IF lo = hi THEN f(ws[lo])
+                                  ELSE S(lo, (lo + hi) \div 2) + S((lo + hi) \div 2 + 1, hi)
+                 IN S(1, Len(ws))
+WordsFit == LET ws == LastWords IN       \* (LET: evaluated once; a bare definition would be re-evaluated per word)
+            \A i \in 1..Len(ws) :
+              LET w == ws[i] IN WordOK(w) /\ Pack(w) >= 0 /\ Pack(w) < WordLim /\ Unpack(Pack(w)) = w
 Saturated(w) == w.dpc = PcMax \/ w.dl \in {LineMin, LineMax} \/ w.dc \in {ColMin, ColMax}
 Shape == rows # <<>> =>
   LET ws == LastWords n == Len(ws)
